@@ -27,7 +27,7 @@ BOUNDS = {
     "quick": "PageHinkley: one inductive step (arbitrary state, symbolic unbounded burn_in) x 2 directions; histories N<=4 "
              "from the constructor. CUSUM: one step from an arbitrary state with since in {0..2}, 0 or 2 older buffered "
              "observations, burn_in in {1,2,3}, 3 directions, mid-epoch and after an alarm; histories from the constructor "
-             "N=burn_in+2 (burn_in in {2,3}) through estimation",
+             "N=burn_in+2 (burn_in in {2,3}) through estimation; one post-alarm step whose buffer still holds an earlier epoch (since=3, burn_in=2) per direction; constant windows (zero deviation) after an alarm and during burn-in",
     "thorough": "as quick with since<=3, PageHinkley histories N<=5, CUSUM constructor histories N=burn_in+3",
 }
 OUTSIDE = "IEEE rounding (exact real arithmetic); sd_hat == 0 inside burn-in (division by zero; assumed away and counted)"
@@ -144,8 +144,13 @@ def _cusum_run(ctx, d, spec, x):
     ctx.prove(lnot(state_is(post, "warning")), "cusum-never-warns")
     zero_sd = _exact_zero(spec.sd)  # the sums are inf / nan there: not compared
     if spec.active and not zero_sd:
-        ctx.prove(land(ctx.eq(scalar(d._upper_bound[-1]), spec.s_h), ctx.eq(scalar(d._lower_bound[-1]), spec.s_l)),
-                  "cusum-sums-equal-spec")
+        # the code reads its sums back by position (index samples_since_reset - 1): the representation is one entry per
+        # sample of the epoch after the initial 0, and the entry of this sample is the specification's sum
+        n = d.samples_since_reset
+        ctx.prove(len(d._upper_bound) == n + 1 and len(d._lower_bound) == n + 1, "cusum-one-sum-per-sample-of-the-epoch")
+        if len(d._upper_bound) > n and len(d._lower_bound) > n:
+            ctx.prove(land(ctx.eq(scalar(d._upper_bound[n]), spec.s_h), ctx.eq(scalar(d._lower_bound[n]), spec.s_l)),
+                      "cusum-sums-equal-spec")
         ctx.prove(land(ctx.eq(scalar(d.target), spec.target), ctx.eq(scalar(d.sd_hat), spec.sd)), "cusum-target-sd")
     spec.alarmed = state_is(post, "drift") is True
     ctx.witness(f"state-{post}")
